@@ -717,8 +717,10 @@ impl<T> ExternalError<T> for Result<T, pem::PemError> {
 	fn _err(self) -> Result<T, Error> {
 		self.map_err(|e| {
 			Error::PemError(match e {
-				// The offending line is a piece of the input, which may be private key material
+				// The offending line and the mismatching tags are pieces of the input, which may
+				// be private key material
 				pem::PemError::InvalidHeader(_) => "invalid header".to_string(),
+				pem::PemError::MismatchedTags(..) => "mismatching BEGIN and END tags".to_string(),
 				e => e.to_string(),
 			})
 		})
